@@ -30,6 +30,7 @@ func init() {
 	register("C07", checkC07)
 	register("C08", checkC08)
 	register("C02", checkC02)
+	register("C15", checkC15)
 }
 
 func main() {
